@@ -5,7 +5,7 @@ line structure `linesOK`: every source line keeps a token after its trailing sem
 stripped, one ";" is stripped iff the last token left asks for one, no listed bad pair).
 Core Lean only.
 -/
-import WuffsVerif.Proof.RenderPieces
+import WuffsVerif.Proof.RenderItems
 
 namespace WuffsVerif.Render
 open WuffsVerif.FmtToken WuffsVerif.Gen.C12
@@ -34,14 +34,14 @@ theorem tabs_replicate (n : Int) : tabs n = List.replicate (4 * n).toNat 32 := r
 
 /-- a comment `Render` writes: the entry of `comments`, non-empty -/
 theorem commentText_shape (comments : Array Bytes) (hcm : wfComments comments) (line : Nat) (indent : Int) :
-    ∃ com, wfComment com = true ∧
+    ∃ com, com = getC comments line ∧ wfComment com = true ∧
       commentText comments line indent true = (if com.isEmpty then [] else tabs indent ++ stripTrailingSpaces com) ∧
       commentText comments line indent false = (if com.isEmpty then [] else 32 :: 32 :: stripTrailingSpaces com) := by
-  unfold commentText
+  unfold commentText getC
   cases h : comments[line]? with
-  | none => exact ⟨[], rfl, rfl, rfl⟩
+  | none => exact ⟨[], rfl, rfl, rfl, rfl⟩
   | some com =>
-    refine ⟨com, hcm com ?_, ?_, ?_⟩
+    refine ⟨com, rfl, hcm com ?_, ?_, ?_⟩
     · have := Array.mem_of_getElem? h
       exact Array.mem_toList_iff.mpr this
     · simp only [↓reduceIte]
@@ -55,36 +55,54 @@ theorem commentText_isEmpty (com : Bytes) (hw : wfComment com = true) (indent : 
     obtain ⟨y, hy, _⟩ := strip_wfComment hw hne
     simp [hc, hy]
 
-/-- the pieces of the comment lines `flushComments` writes; the other fields it leaves alone -/
+/-- the pieces of the comment lines `flushComments` writes (with enough fuel: the comments of the
+lines from `commentLine` up to `upto`, in order); the other fields it leaves alone -/
 theorem flushComments_pieces (comments : Array Bytes) (hcm : wfComments comments) (ci : Int) (upto : Nat) :
     ∀ (f : Nat) (s : RSt), ∃ ps : List Piece,
       (flushComments comments ci upto f s).out = s.out ++ piecesBytes ps ∧
       (∀ p ∈ ps, p.ok) ∧ ps.flatMap Piece.src = [] ∧
       (flushComments comments ci upto f s).indent = s.indent ∧
       (flushComments comments ci upto f s).inStruct = s.inStruct ∧
-      (flushComments comments ci upto f s).prevLineHanging = s.prevLineHanging := by
+      (flushComments comments ci upto f s).prevLineHanging = s.prevLineHanging ∧
+      (upto - s.commentLine ≤ f →
+        (flushComments comments ci upto f s).commentLine = max s.commentLine upto ∧
+        ps.flatMap Piece.srcItems = cmtRange (getC comments) s.commentLine (upto - s.commentLine)) := by
   intro f
   induction f with
-  | zero => intro s; exact ⟨[], by simp [flushComments, piecesBytes], by simp, rfl, rfl, rfl, rfl⟩
+  | zero =>
+    intro s
+    refine ⟨[], by simp [flushComments, piecesBytes], by simp, rfl, rfl, rfl, rfl, ?_⟩
+    intro h
+    have e : upto - s.commentLine = 0 := by omega
+    rw [e]
+    exact ⟨by simp only [flushComments]; omega, rfl⟩
   | succ f ih =>
     intro s
     rw [flushComments]
     split
-    · obtain ⟨com, hw, hct, _⟩ := commentText_shape comments hcm s.commentLine ci
+    · rename_i hlt
+      obtain ⟨com, hcom, hw, hct, _⟩ := commentText_shape comments hcm s.commentLine ci
       simp only
       rw [hct, commentText_isEmpty com hw]
+      have hrange : upto - s.commentLine = (upto - (s.commentLine + 1)) + 1 := by omega
       by_cases hc : com.isEmpty = true
       · simp only [hc, ↓reduceIte]
-        obtain ⟨ps, h1, h2, h3, h4, h5, h6⟩ := ih { s with commentLine := s.commentLine + 1 }
-        exact ⟨ps, h1, h2, h3, h4, h5, h6⟩
+        obtain ⟨ps, h1, h2, h3, h4, h5, h6, h7⟩ := ih { s with commentLine := s.commentLine + 1 }
+        refine ⟨ps, h1, h2, h3, h4, h5, h6, ?_⟩
+        intro hf
+        obtain ⟨g1, g2⟩ := h7 (by simp only; omega)
+        simp only at g1 g2
+        refine ⟨by rw [g1]; omega, ?_⟩
+        rw [g2, hrange, cmtRange, ← hcom, hc]
+        simp
       · simp only [hc, Bool.false_eq_true, ↓reduceIte]
         have hne : com ≠ [] := by simpa using hc
-        obtain ⟨ps, h1, h2, h3, h4, h5, h6⟩ := ih { s with
+        obtain ⟨ps, h1, h2, h3, h4, h5, h6, h7⟩ := ih { s with
           out := s.out ++ (if s.commentLine > s.prevLine + 1 then [10] else []) ++
             (tabs ci ++ stripTrailingSpaces com) ++ [10],
           varNameLength := 0, prevLine := s.commentLine, commentLine := s.commentLine + 1 }
         refine ⟨(if s.commentLine > s.prevLine + 1 then [Piece.blank] else []) ++
-          Piece.comment (4 * ci).toNat com :: ps, ?_, ?_, ?_, h4, h5, h6⟩
+          Piece.comment (4 * ci).toNat com :: ps, ?_, ?_, ?_, h4, h5, h6, ?_⟩
         · rw [h1]
           simp only [piecesBytes, List.flatMap_append, List.flatMap_cons, Piece.bytes, tabs_replicate]
           split <;> simp [Piece.bytes, List.append_assoc]
@@ -99,7 +117,21 @@ theorem flushComments_pieces (comments : Array Bytes) (hcm : wfComments comments
             · exact h2 p hp
         · rw [List.flatMap_append, List.flatMap_cons, h3]
           split <;> simp [Piece.src]
-    · exact ⟨[], by simp [piecesBytes], by simp, rfl, rfl, rfl, rfl⟩
+        · intro hf
+          obtain ⟨g1, g2⟩ := h7 (by simp only; omega)
+          simp only at g1 g2
+          refine ⟨by rw [g1]; omega, ?_⟩
+          have hb : List.flatMap Piece.srcItems (if s.commentLine > s.prevLine + 1 then [Piece.blank] else []) = [] := by
+            split <;> simp [Piece.srcItems, Piece.src, Piece.outComment]
+          have hse : (stripTrailingSpaces com).isEmpty = false := by rw [strip_isEmpty hw]; simpa using hc
+          rw [List.flatMap_append, List.flatMap_cons, hb, g2, hrange, cmtRange, ← hcom]
+          simp [Piece.srcItems, Piece.src, Piece.outComment, hse, hc]
+    · rename_i hge
+      refine ⟨[], by simp [piecesBytes], by simp, rfl, rfl, rfl, rfl, ?_⟩
+      intro _
+      have e : upto - s.commentLine = 0 := by omega
+      rw [e]
+      exact ⟨by omega, rfl⟩
 
 /-! ### lists of tokens -/
 
